@@ -1,6 +1,6 @@
 (* C08 - naming and rule order are semantically transparent (over Sem.v). Generics, sockets and
    parentheses are resolved by the parser before validation: for those the check is metamorphic on the code. *)
-From Cddl Require Import Sem.Syntax Sem.Validator Sem.Sem Sem.Transparent Sem.Reach Sem.Rename.
+From Cddl Require Import Sem.Syntax Sem.Validator Sem.Sem Sem.Transparent Sem.Reach Sem.Rename Sem.AgreeAll Sem.Congr Sem.Subst.
 From Coq Require Import Permutation.
 Open Scope Z_scope.
 
@@ -81,4 +81,44 @@ Proof.
       apply N.eqb_eq in Hn; subst n; reflexivity.
   - intros n d Hn L. apply orb_true_iff in Hn. destruct Hn as [Hn|Hn]; [apply orb_true_iff in Hn; destruct Hn as [Hn|Hn]|];
       apply N.eqb_eq in Hn; subst n; vm_compute in L; injection L as <-; reflexivity.
+Qed.
+
+(* AT ANY POSITION (Sem/Congr.v, Sem/Subst.v).  Cg B is the congruence generated by the pairs B: the
+   related types differ by exchanging B-related sub-expressions under tags, choices, control targets,
+   .and/.within operands, array groups at any nesting and map member keys / values.  If the pairs are
+   equivalent, so are the wholes (congruence of the specification, by induction over its 55 rules). *)
+Theorem C08_congruence : forall jm e (B : ty -> ty -> Prop) t t',
+  (forall p q, B p q -> Eqv jm e p q) -> Cg B t t' -> Eqv jm e t t'.
+Proof. exact congruence. Qed.
+
+(* replacing a type expression by a reference to a rule defined as that expression, or inlining a rule,
+   at any position *)
+Theorem C08_naming_anywhere : forall jm e t t' v, Cg (RefPair e) t t' ->
+  (MatchT jm e t v <-> MatchT jm e t' v) /\ (FailT jm e t v <-> FailT jm e t' v).
+Proof. exact naming_anywhere. Qed.
+
+(* instantiating a generic rule (parameter x bound to the argument a) versus substituting the argument by
+   hand; the parameter may occur anywhere except inside the literal argument of a comparison-like control *)
+Theorem C08_generic_is_substitution : forall jm e x a t v,
+  (forall n d, other x n = true -> lookup_all e n = Some d -> def_refs_in (other x) d = true) ->
+  refs_in (other x) (subst x a t) = true ->
+  (MatchT jm ((x, DType a) :: e) t v <-> MatchT jm e (subst x a t) v) /\
+  (FailT jm ((x, DType a) :: e) t v <-> FailT jm e (subst x a t) v).
+Proof. exact generic_is_substitution. Qed.
+
+(* non-vacuity: pair<t> = [t, {"k" => t .size 2}] instantiated with tstr, against the hand-written type *)
+Example C08_generic_example :
+  let body := TArr (GSeq (GEnt None false (TRef 5%N))
+                         (GEnt None false (TMap (GEnt (Some (TLit (LText [107%N]))) true (TCtl CSize (TRef 5%N) (TLit (LInt 2))))))) in
+  subst 5%N (TRef 1006%N) body =
+    TArr (GSeq (GEnt None false (TRef 1006%N))
+               (GEnt None false (TMap (GEnt (Some (TLit (LText [107%N]))) true (TCtl CSize (TRef 1006%N) (TLit (LInt 2))))))) /\
+  (MatchT false [(5%N, DType (TRef 1006%N))] body (VArr [VText [97%N]; VMap [(VText [107%N], VText [97%N; 98%N])]]) <->
+   MatchT false [] (subst 5%N (TRef 1006%N) body) (VArr [VText [97%N]; VMap [(VText [107%N], VText [97%N; 98%N])]])).
+Proof.
+  cbv zeta. split; [reflexivity|].
+  apply generic_is_substitution; [|reflexivity].
+  intros n d Hn L. unfold lookup_all in L. cbn [lookup] in L.
+  pose proof (AgreeAll.lookup_forallb (fun _ d => def_refs_in (other 5%N) d) prelude n d ltac:(vm_compute; reflexivity) L) as X.
+  exact X.
 Qed.
